@@ -6,6 +6,8 @@ and evaluates the captured constraint callables at test points (affine constrain
 ensembles, so values and Jacobians are known exactly)."""
 from __future__ import annotations
 
+import os
+
 import itertools
 
 import numpy as np
@@ -66,9 +68,19 @@ def _outdir():
         import shutil  # noqa: PLC0415
         import tempfile  # noqa: PLC0415
 
-        _OUTDIR = tempfile.mkdtemp(prefix="verif_c08_")
+        _OUTDIR = tempfile.mkdtemp(prefix="verif_c08_", dir=("/dev/shm" if os.path.isdir("/dev/shm") else None))
         atexit.register(shutil.rmtree, _OUTDIR, ignore_errors=True)
     return _OUTDIR
+
+
+def worker_teardown(obs):
+    """(atexit handlers do not run in the workers: the scratch directory is removed here)"""
+    global _OUTDIR  # noqa: PLW0603
+    if _OUTDIR is not None:
+        import shutil  # noqa: PLC0415
+
+        shutil.rmtree(_OUTDIR, ignore_errors=True)
+        _OUTDIR = None
 
 
 def run_case(case, obs):
